@@ -160,8 +160,8 @@ claim("C12", "DESIGN.md §2 C12",
       "'deaf requesters' that talk to the searcher before the lookup but never answer its pings) with "
       "loss up to 40%: node and value lookups must end within (find requests + 1) x rpc_timeout of virtual time, send no more requests "
       "than contacts learned, yield only peers that replied / well-formed public peers, never the searcher, nothing twice.",
-      "Networks, schedules and fault sets are sampled; 'nodes closest to its hash' is asserted weakly (documented in the evidence "
-      "assumptions); no node re-announces in the simulation.")
+      "Networks, schedules and fault sets are sampled; 'nodes closest to its hash' = at least three quarters of the true closest nodes "
+      "store the announcement; some networks put several or all nodes behind one address; lookups also go through accumulate_peers.")
 claim("C18", "DESIGN.md §2 C18",
       "model-based property testing: Hypothesis op histories (complete / publish / delete / behind-the-back file changes / crash windows between file and database writes / restarts) against a real BlobManager + file-backed SQLiteStorage, compared with the directory listing and a separate sqlite connection",
       "Histories of up to 20 (thorough 30) ops run against the real BlobManager and SQLiteStorage in a temp dir: blob completion through a "
@@ -202,7 +202,8 @@ claim("C02", "DESIGN.md §2 C02",
       "MAX_BLOB_SIZE patched to 16..4096, effectiveness of the patch proven per process; enumerated real 2 MiB streams at k*(2MiB-1)+d): every "
       "blob file hashes to its name, lengths <= max, terminator, numbering, independent decrypt equals the file, sd hash and stream hash equal "
       "the reference, reload equal; in a third of the cases the executor is harness-owned (queued jobs run one at a time in LIFO / "
-      "FIFO order) so that a write create_stream() did not wait for is still queued when it returns. Tamper: a valid descriptor with one of ~48 edits (optionally re-committing the stream hash so structural "
+      "FIFO order) so that a write create_stream() did not wait for is still queued when it returns; 2..8 files are also published at "
+      "the same time into one directory with real worker threads. Tamper: a valid descriptor with one of ~48 edits (optionally re-committing the stream hash so structural "
       "checks are tested alone) stored under its own SHA-384 must be refused whenever the reference says hash mismatch / broken invariant / "
       "malformed. Names: sanitize_file_name and the ManagedStream getter never return '/', '\\\\', NUL or C0 controls nor an empty name.",
       "Hash-neutral shifts across the undelimited commitment and re-committed consistent edits are a don't-care; any exception counts as "
